@@ -604,6 +604,63 @@ def rule_d(ctx: Context, R: Reporter):
                 witness={"consumed": sorted(consumed), "written": sorted(set().union(*w))}, key=f"keys:{fi.short}")
 
 
+    # result attributes: what the run driver stores on the object and a value-returning method of the same class
+    # reads back (the number of samples asked for, the evidence error, ...) is part of the checkpoint: written under
+    # a key of the same name and restored by the loader -- otherwise a restored sampler answers from a default
+    from .c12 import run_driver as _run_driver
+
+    try:
+        drv, _loop = _run_driver(ctx)
+    except AnalysisError:
+        drv = None
+    if drv is not None and drv.cls is not None:
+        cls = drv.cls
+        assigned = {}
+        for n_ in walk_no_nested(drv.node):
+            if isinstance(n_, ast.Assign):
+                for t in n_.targets:
+                    for tt in (t.elts if isinstance(t, (ast.Tuple, ast.List)) else [t]):
+                        if isinstance(tt, ast.Attribute) and isinstance(tt.value, ast.Name) and tt.value.id == "self":
+                            assigned.setdefault(tt.attr, n_)
+        readers = {}
+        for m in cls.methods.values():
+            if m is drv or m.name == "__init__" or not any(isinstance(r, ast.Return) and r.value is not None for r in walk_no_nested(m.node)):
+                continue
+            if any(m.qualname == q for q in written) or any(fi_.qualname == m.qualname for (fi_, _, _) in loaders(ctx)):
+                continue
+            for x in ast.walk(m.node):
+                a_ = None
+                if isinstance(x, ast.Attribute) and isinstance(x.value, ast.Name) and x.value.id == "self" and isinstance(x.ctx, ast.Load):
+                    a_ = x.attr
+                elif isinstance(x, ast.Call) and dotted(x.func) == "getattr" and len(x.args) >= 2 and isinstance(x.args[0], ast.Name) and x.args[0].id == "self" and isinstance(x.args[1], ast.Constant):
+                    a_ = x.args[1].value
+                if a_ in assigned:
+                    readers.setdefault(a_, m)
+        wkeys = set().union(*[k for q, k in written.items() if ctx.prog.functions[q].cls is cls]) if any(ctx.prog.functions[q].cls is cls for q in written) else set()
+        restored = set()
+        for (lf, _c, _n) in loaders(ctx):
+            if lf.cls is cls:
+                for n_ in walk_no_nested(lf.node):
+                    if isinstance(n_, ast.Assign):
+                        for t in n_.targets:
+                            if isinstance(t, ast.Attribute) and isinstance(t.value, ast.Name) and t.value.id == "self":
+                                restored.add(t.attr)
+                    elif isinstance(n_, ast.Call) and dotted(n_.func) == "setattr" and len(n_.args) == 3 and isinstance(n_.args[0], ast.Name) and n_.args[0].id == "self":
+                        restored |= {x.value for x in ast.walk(n_.args[1]) if isinstance(x, ast.Constant) and isinstance(x.value, str)} or {"*"}
+        n_res = 0
+        for a_, m in sorted(readers.items()):
+            vals = [v for (mm, st, v) in ctx.res.attr_assignments(cls, a_)] if hasattr(ctx.res, "attr_assignments") else []
+            # collaborators wired in the constructor (steps, state, configuration) are not run results
+            if any(isinstance(t, ClassInfo) for t in ctx.res.attr_type(cls, a_)):
+                continue
+            n_res += 1
+            ok = a_ in wkeys and (a_ in restored or "*" in restored)
+            R.check("C08.d", f"run result `{a_}` (read by {m.short}) is written to and restored from the checkpoint", ok, drv, assigned[a_],
+                    msg=f"{drv.short}: `self.{a_}` is set by the run and read back by {m.short}, but it is {'not written by the checkpoint writer' if a_ not in wkeys else 'not restored by the loader'}: "
+                        f"a sampler restored from a checkpoint answers from a default / stale value instead of the value the finished run computed", key=f"result-attr:{a_}")
+        R.analysed["C08.d:run-result attributes"] = n_res
+
+
 # ------------------------------------------------------------------ C08.e
 def rule_e(ctx: Context, R: Reporter):
     lds = loaders(ctx)
